@@ -1,6 +1,7 @@
 import Srtla.Model.Select
 import Srtla.Model.Sys
 import Srtla.Lemmas.SelectFrame
+import Srtla.Lemmas.SelShellFrame
 /-!
 # C12 — the stall guard is a routing penalty only; off means baseline
 
@@ -24,6 +25,13 @@ bit-for-bit against the real function by component `sel`.
 * Which `SrtlaConnection` fields are inside / outside `Frame` is spelled out in the section
   "What is inside and what is outside `Frame`" below; `C12_frame_shell` is the full-connection form
   for the shell model (`Model/Sys.lean` `runSelect`).
+
+* Round 3 — the shell (`Model/Sys.lean`, `Sys.step`, validated by component `sys`), section "Shell level:
+  events and runs": `C12_frame_client` (a `client` event moves the liveness / accounting fields of a link
+  only by queueing the datagram — or a duplicate probe copy — on it, exactly as forwarding does, whatever
+  the guard decided), `C12_guard_decides_only_the_route` (guard on vs. off from the same state),
+  `C12_guard_switch_elsewhere` (no other event reads the switch), `C12_off_clears_sys`,
+  `C12_off_stays_clear_run` and the packaging `C12_frame_run`.
 
 All theorems hold for every scalar type `F` and every `[Scalar F]` instance (float comparisons are
 opaque Booleans): in particular for the `Float` instance the compiled driver runs.
@@ -236,5 +244,297 @@ example :
     ((@selectIdx Int fixScalar ls none 5000 {}).1.map fun c => (c.gateEvents, c.latchedSince, c.stallGated, c.inFlight, c.proofMs))
       = [(0, 0, false, 10, 0), (1, 5000, true, 40, 1000)] := by
   decide +kernel
+
+/-! ## Shell level: events and runs (round 3)
+
+`C12_frame_shell` is about ONE call of the scheduler.  Here: whole events of the shell model
+(`Sys.step`), every link index `j` (`l` before, `l'` after, same index), and runs.
+
+`liveAcct l` (Lemmas/SelShellFrame.lean) is the link with everything a routing decision may write
+erased — the ten fields of `SameUpToGuard` and the probe counter (which only `send_stall_probes` moves,
+and only for links the guard holds stall-gated) — so `liveAcct l' = liveAcct l` says: the accounting
+core (`connected`, `last_received`, `last_sent`, window, in-flight count, packet log, NAK / congestion
+counters, phase, proof stamp), keepalive stamp, RTT and bitrate trackers, reconnection state, batch
+queue and the classifier / CC stamps are ALL unchanged.
+
+`after s evs` is the state after the events `evs` (= `(Sys.run s evs).1`, `SysLevel.run_eq_foldl`; this
+file cannot import `Sys.run`, whose file depends on this one). -/
+
+section shellEvents
+open Srtla.Link Srtla.Sys Srtla.SelShell
+
+/-- What `liveAcct` erases (so the statements below can be read without opening the lemma file). -/
+theorem C12_liveAcct_spec (l : FLink F) :
+    liveAcct l = { l with stallGated := false, latchedSince := 0, recoverySince := 0, gateEvents := 0,
+                          probeCounter := 0, silencePulled := false, pullMark := none, silencePulls := 0,
+                          connTimeoutMs := 0, qualMult := Rtt.one, qualAt := 0 } := rfl
+
+/-- What forwarding a datagram on a link is (`forward_via_connection`): queue it; on reaching the batch
+threshold drain the queue (`take_batch`: registers the tracked packets, stamps `last_sent`); if that send
+fails (an injected failure pending for the conn id) tear the link down (`mark_for_recovery`). -/
+theorem C12_fwdLink_spec (l : FLink F) (pkt : Link.Bytes) (seq : Option Nat) (now : Nat) (fn : List Nat) :
+    (Hk.fwdLink l pkt seq now fn).1 =
+      if (l.queueDataPacket pkt seq now).2 = true then
+        if (sendConnectionBatch (l.queueDataPacket pkt seq now).1 now fn).2.2.1 = true
+        then ((l.queueDataPacket pkt seq now).1.takeBatch now).1
+        else ((l.queueDataPacket pkt seq now).1.takeBatch now).1.markForRecovery
+      else (l.queueDataPacket pkt seq now).1 := by
+  unfold Hk.fwdLink
+  split
+  · dsimp only
+    rw [(Hk.sendBatch_cases _ now fn).1]
+  · rfl
+
+/-- **Frame of a `client` event.**  `handle_srt_packet` (selection pass, best-quality override,
+forwarding, stall probes) moves the liveness / accounting fields of link `j` in exactly one of three ways:
+
+1. `j` is not the target and got no probe copy: NOTHING changes — whatever the guard did to the link
+   (latched it, released it, pulled it, gated it), in either mode;
+2. `j` is the target (`clientTarget`: the scheduler's pick after the override, or the pre-registration
+   pick): they change exactly as forwarding the datagram on the OLD link changes them
+   (`C12_fwdLink_spec`) — a function of the old liveness / accounting fields alone (`liveAcct_fwdLink`),
+   not of the guard's state;
+3. `j` is another link that this pass holds stall-gated (so: guard on, registered session, data packet,
+   the link connected before and — unless the copy's flush failed and tore it down — latched or pulled
+   after): a duplicate probe copy was queued on it, again exactly as forwarding does (with whatever
+   injected send failures the earlier sends of this event left: `fn`).
+
+So the guard influences liveness / accounting ONLY through where the datagram (and its sparse probe
+copies) is queued. -/
+theorem C12_frame_client (s : Sys F) (pkt : Sys.Bytes) (now j : Nat) (l l' : FLink F)
+    (hl : s.links[j]? = some l) (hl' : (step s (.client now pkt)).1.links[j]? = some l') :
+    (clientTarget s pkt now ≠ some j ∧ liveAcct l' = liveAcct l) ∨
+    (clientTarget s pkt now = some j ∧
+      liveAcct l' = liveAcct (Hk.fwdLink l pkt (Codec.getSrtSequenceNumberS pkt) now s.failNext).1) ∨
+    (clientTarget s pkt now ≠ some j ∧ pkt ≠ [] ∧ s.reg.hasConnected = true ∧ s.cfg.stallDeselect = true ∧
+      (Codec.getSrtSequenceNumberS pkt).isSome = true ∧ (clientTarget s pkt now).isSome = true ∧
+      l.core.connected = true ∧
+      (l'.core.connected = false ∨ l'.latchedSince ≠ 0 ∨ l'.silencePulled = true) ∧
+      ∃ fn, liveAcct l' = liveAcct (Hk.fwdLink l pkt (Codec.getSrtSequenceNumberS pkt) now fn).1) := by
+  cases client_liveAcct s pkt now j l l' hl hl' with
+  | idle ht h => exact .inl ⟨ht, h⟩
+  | target ht h => exact .inr (.inl ⟨ht, h⟩)
+  | probe ht hne hreg hon hseq hsome hc hg h => exact .inr (.inr ⟨ht, hne, hreg, hon, hseq, hsome, hc, hg, h⟩)
+
+/-- **The guard decides only the route.**  Run the same `client` event from the same state with the
+guard switch as it is (`s`) and set to `b` (`withGuard b s`; everything else identical).  For every link
+`j` that is the target in both executions or in neither, the liveness / accounting fields after the two
+executions are IDENTICAL — unless `j` received a duplicate probe copy in one of them (possible only with
+the guard on there). -/
+theorem C12_guard_decides_only_the_route (s : Sys F) (b : Bool) (pkt : Sys.Bytes) (now j : Nat)
+    (l l₁ l₂ : FLink F) (hl : s.links[j]? = some l)
+    (h₁ : (step s (.client now pkt)).1.links[j]? = some l₁)
+    (h₂ : (step (withGuard b s) (.client now pkt)).1.links[j]? = some l₂)
+    (ht : clientTarget s pkt now = some j ↔ clientTarget (withGuard b s) pkt now = some j) :
+    liveAcct l₁ = liveAcct l₂ ∨
+    (s.cfg.stallDeselect = true ∧ clientTarget s pkt now ≠ some j ∧
+      ∃ fn, liveAcct l₁ = liveAcct (Hk.fwdLink l pkt (Codec.getSrtSequenceNumberS pkt) now fn).1) ∨
+    (b = true ∧ clientTarget (withGuard b s) pkt now ≠ some j ∧
+      ∃ fn, liveAcct l₂ = liveAcct (Hk.fwdLink l pkt (Codec.getSrtSequenceNumberS pkt) now fn).1) := by
+  have hl2 : (withGuard b s).links[j]? = some l := hl
+  cases client_liveAcct s pkt now j l l₁ hl h₁ with
+  | probe ht1 _ _ hon _ _ _ _ h => exact .inr (.inl ⟨hon, ht1, h⟩)
+  | idle ht1 e1 =>
+    cases client_liveAcct (withGuard b s) pkt now j l l₂ hl2 h₂ with
+    | probe ht2 _ _ hon _ _ _ _ h => exact .inr (.inr ⟨hon, ht2, h⟩)
+    | idle _ e2 => exact .inl (e1.trans e2.symm)
+    | target ht2 _ => exact absurd (ht.2 ht2) ht1
+  | target ht1 e1 =>
+    cases client_liveAcct (withGuard b s) pkt now j l l₂ hl2 h₂ with
+    | probe ht2 _ _ hon _ _ _ _ h => exact .inr (.inr ⟨hon, ht2, h⟩)
+    | idle ht2 _ => exact absurd (ht.1 ht1) ht2
+    | target _ e2 => exact .inl (e1.trans e2.symm)
+
+/-- **No event other than a `client` datagram reads the guard switch**: an uplink datagram, a flush or
+housekeeping tick, a configuration / fault-injection event gives the same links, registration state,
+sequence tracker, fault set and output whether the guard is on or off. -/
+theorem C12_guard_switch_elsewhere (b : Bool) (s : Sys F) (e : Ev) (hne : ∀ now pkt, e ≠ .client now pkt) :
+    (step (withGuard b s) e).1.links = (step s e).1.links ∧
+    (step (withGuard b s) e).1.reg = (step s e).1.reg ∧
+    (step (withGuard b s) e).1.trk = (step s e).1.trk ∧
+    (step (withGuard b s) e).1.failNext = (step s e).1.failNext ∧
+    (step (withGuard b s) e).2 = (step s e).2 :=
+  step_withGuard b s e hne
+
+/-- The guard holds nothing on this link: not gated, not pulled, not latched, no recovery run. -/
+def GuardClear (l : FLink F) : Prop :=
+  l.stallGated = false ∧ l.silencePulled = false ∧ l.latchedSince = 0 ∧ l.recoverySince = 0
+
+omit [Scalar F] in
+theorem guardClear_of_same {l l' : FLink F} (h : GSame l l' ∨ SelShell.Torn l l') (hc : GuardClear l) :
+    GuardClear l' := by
+  obtain ⟨c1, c2, c3, c4⟩ := hc
+  rcases h with h | h
+  · exact ⟨h.gated.trans c1, h.pulled.trans c2, h.latched.trans c3, h.recovery.trans c4⟩
+  · exact ⟨h.gated, h.pulled, h.latched, h.recovery⟩
+
+/-- **Off clears, at shell level**: a `client` datagram routed by the scheduler (non-empty, registration
+completed) with the guard off leaves EVERY link of the shell un-gated, un-pulled, un-latched and without
+a recovery run — also the links the datagram and the (then impossible) probes did not touch. -/
+theorem C12_off_clears_sys (s : Sys F) (pkt : Sys.Bytes) (now : Nat) (hne : pkt ≠ [])
+    (hreg : s.reg.hasConnected = true) (hoff : s.cfg.stallDeselect = false) :
+    ∀ l' ∈ (step s (.client now pkt)).1.links, GuardClear l' := by
+  intro l' hmem
+  obtain ⟨j, hj, hget⟩ := List.getElem_of_mem hmem
+  have hl' : (step s (.client now pkt)).1.links[j]? = some l' := by
+    rw [← hget]; exact List.getElem?_eq_getElem hj
+  have hlen : (step s (.client now pkt)).1.links.length = s.links.length := client_length s pkt now
+  have hj' : j < s.links.length := by omega
+  obtain ⟨m, hk, hp⟩ := client_guard s pkt now j s.links[j] l' (List.getElem?_eq_getElem hj') hl'
+  have hpr : passRan s pkt = true := (passRan_iff' s pkt).2 ⟨hne, hreg⟩
+  rcases hp with ⟨hp, -⟩ | ⟨-, hm⟩
+  · rw [hpr] at hp; cases hp
+  · obtain ⟨a1, a2, a3, a4, -⟩ := (pass_guard s now j _ m (List.getElem?_eq_getElem hj') hm).2.2 hoff
+    exact guardClear_of_same (hk.elim (fun h => .inl h.same) .inr) ⟨a4, a3, a1, a2⟩
+
+/-- One event with the guard off keeps every link clear. -/
+theorem off_clear_step (s : Sys F) (e : Ev) (hoff : s.cfg.stallDeselect = false)
+    (h : ∀ l ∈ s.links, GuardClear l) : ∀ l' ∈ (step s e).1.links, GuardClear l' := by
+  intro l' hmem
+  obtain ⟨j, hj, hget⟩ := List.getElem_of_mem hmem
+  have hl' : (step s e).1.links[j]? = some l' := by rw [← hget]; exact List.getElem?_eq_getElem hj
+  have hlen : (step s e).1.links.length = s.links.length := (Hk.step_link s e).2.1
+  have hj' : j < s.links.length := by omega
+  have hl : s.links[j]? = some s.links[j] := List.getElem?_eq_getElem hj'
+  have hc := h s.links[j] (List.getElem_mem hj')
+  by_cases hcl : ∃ now pkt, e = .client now pkt
+  · obtain ⟨now, pkt, rfl⟩ := hcl
+    obtain ⟨m, hk, hp⟩ := client_guard s pkt now j s.links[j] l' hl hl'
+    refine guardClear_of_same (hk.elim (fun h => .inl h.same) .inr) ?_
+    rcases hp with ⟨-, rfl⟩ | ⟨-, hm⟩
+    · exact hc
+    · obtain ⟨a1, a2, a3, a4, -⟩ := (pass_guard s now j _ m hl hm).2.2 hoff
+      exact ⟨a4, a3, a1, a2⟩
+  · exact guardClear_of_same
+      (other_guard s e (fun now pkt h => hcl ⟨now, pkt, h⟩) j _ l' hl hl') hc
+
+/-- The state after a list of events (`= (Sys.run s evs).1`). -/
+def after (s : Sys F) (evs : List Ev) : Sys F := evs.foldl (fun s e => (step s e).1) s
+
+theorem after_snoc (s : Sys F) (pre : List Ev) (e : Ev) : after s (pre ++ [e]) = (step (after s pre) e).1 := by
+  unfold after
+  rw [List.foldl_append]
+  rfl
+
+/-- **Off stays clear, along runs.**  Start with the guard off and every link clear (e.g. fresh links) and
+let ANY events happen that do not switch the guard on (client and uplink datagrams, ticks, reconnects,
+tear-downs, other configuration changes, fault injections, any clock): at the end the guard is still off
+and no link of the shell is gated, pulled, latched or in a recovery run — the stall machinery never
+becomes visible in the state. -/
+theorem C12_off_stays_clear_run (s : Sys F) (evs : List Ev) (hoff : s.cfg.stallDeselect = false)
+    (hevs : ∀ e ∈ evs, ∀ cfg, e = .setCfg cfg → cfg.stallDeselect = false)
+    (h : ∀ l ∈ s.links, GuardClear l) :
+    (after s evs).cfg.stallDeselect = false ∧ ∀ l ∈ (after s evs).links, GuardClear l := by
+  induction evs generalizing s with
+  | nil => exact ⟨hoff, h⟩
+  | cons e evs ih =>
+    have hoff' : (step s e).1.cfg.stallDeselect = false := by
+      by_cases hc : ∃ cfg, e = .setCfg cfg
+      · obtain ⟨cfg, rfl⟩ := hc
+        exact hevs _ List.mem_cons_self cfg rfl
+      · rw [step_cfg s e (fun cfg h => hc ⟨cfg, h⟩)]; exact hoff
+    exact ih (step s e).1 hoff' (fun x hx => hevs x (List.mem_cons_of_mem _ hx)) (off_clear_step s e hoff h)
+
+/-- **Frame, along runs.**  At every position of every run of the shell (state `after s pre`, next event
+`e`), for every link:
+* if `e` makes a routing decision (a `client` datagram), the liveness / accounting fields of the link
+  move only by the datagram — or a duplicate probe copy — being queued on it, exactly as forwarding moves
+  them (the three cases of `C12_frame_client`);
+* if `e` is any other event, the whole link after the event is the same whether the guard is on or off:
+  the event does not read the switch (`C12_guard_switch_elsewhere`).
+Hence the ONLY way the guard's decisions reach a link's liveness / accounting state, along any history,
+is the choice of the link a client datagram and its probe copies are queued on. -/
+theorem C12_frame_run (s : Sys F) (pre : List Ev) (e : Ev) (j : Nat) (l l' : FLink F)
+    (hl : (after s pre).links[j]? = some l) (hl' : (after s (pre ++ [e])).links[j]? = some l') :
+    (∀ now pkt, e = .client now pkt →
+      (clientTarget (after s pre) pkt now ≠ some j ∧ liveAcct l' = liveAcct l) ∨
+      (clientTarget (after s pre) pkt now = some j ∧
+        liveAcct l' = liveAcct (Hk.fwdLink l pkt (Codec.getSrtSequenceNumberS pkt) now (after s pre).failNext).1) ∨
+      (clientTarget (after s pre) pkt now ≠ some j ∧ pkt ≠ [] ∧ (after s pre).reg.hasConnected = true ∧
+        (after s pre).cfg.stallDeselect = true ∧
+        (Codec.getSrtSequenceNumberS pkt).isSome = true ∧ (clientTarget (after s pre) pkt now).isSome = true ∧
+        l.core.connected = true ∧
+        (l'.core.connected = false ∨ l'.latchedSince ≠ 0 ∨ l'.silencePulled = true) ∧
+        ∃ fn, liveAcct l' = liveAcct (Hk.fwdLink l pkt (Codec.getSrtSequenceNumberS pkt) now fn).1)) ∧
+    ((∀ now pkt, e ≠ .client now pkt) →
+      ∀ b, (step (withGuard b (after s pre)) e).1.links[j]? = some l') := by
+  rw [after_snoc] at hl'
+  refine ⟨?_, ?_⟩
+  · rintro now pkt rfl
+    exact C12_frame_client (after s pre) pkt now j l l' hl hl'
+  · intro hne b
+    rw [(step_withGuard b (after s pre) e hne).1]
+    exact hl'
+
+/-! ### non-vacuity -/
+
+/-- Two live links at `now ≈ 5000`, registered session, guard on (threshold 2, ceiling 1000 ms).  Link 0
+(conn id 1, window 20000, two packets in flight: score 6666) has stale delivery proof (2000); link 1
+(conn id 2, window 3000: score 3000) is idle.  Guard on: the pass latches and gates link 0, the datagram
+goes to link 1.  Guard off: link 0 wins. -/
+def exShell : Sys Int :=
+  { links :=
+      [ { (@FLink.newRegistering Int fixScalar 1 0) with
+          core := { connId := 1, connected := true, phase := .live, inFlight := 2,
+                    log := [(5, 100), (7, 120)], highestAcked := 4, lastReceived := some 4990, proofMs := 2000 },
+          established := 1 },
+        { (@FLink.newRegistering Int fixScalar 2 0) with
+          core := { connId := 2, connected := true, phase := .live, window := 3000, lastReceived := some 4990 },
+          established := 1 } ],
+    reg := { (Srtla.Reg.Reg.new [] []) with hasConnected := true },
+    cfg := { stallMinInFlight := 2, stallCeilingMs := 1000 } }
+
+/-- An SRT data packet with sequence number 9. -/
+def exData9 : List UInt8 := [0, 0, 0, 9, 0, 0, 0, 0, 1, 2, 3, 4, 9, 9, 9, 9, 42]
+
+/-- Cases 1 and 2 of `C12_frame_client`, and `C12_guard_decides_only_the_route` with DIFFERENT routes:
+guard on → target 1, link 0 is latched + gated by the pass but its queue, log, in-flight count, window,
+stamps are untouched; guard off → target 0.  In both executions the link that is not the target keeps its
+liveness / accounting fields (queue length, in-flight, window shown). -/
+example :
+    @clientTarget Int fixScalar exShell exData9 5000 = some 1 ∧
+    @clientTarget Int fixScalar (@withGuard Int false exShell) exData9 5000 = some 0 ∧
+    ((@step Int fixScalar exShell (.client 5000 exData9)).1.links.map fun l =>
+      (l.latchedSince, l.stallGated, l.queue.length, l.core.inFlight, l.core.window)) =
+      [(5000, true, 0, 2, 20000), (0, false, 1, 0, 3000)] ∧
+    ((@step Int fixScalar (@withGuard Int false exShell) (.client 5000 exData9)).1.links.map fun l =>
+      (l.latchedSince, l.stallGated, l.queue.length, l.core.inFlight, l.core.window)) =
+      [(0, false, 1, 2, 20000), (0, false, 0, 0, 3000)] := by
+  decide +kernel
+
+/-- Case 3 (probe copy): link 0 gated with its probe counter at 99 — the next routed data packet puts a
+duplicate on it too (queue length 1 on BOTH links); with the counter at 0 it does not. -/
+example :
+    let s99 : Sys Int := { exShell with links := exShell.links.mapIdx fun i l =>
+      if i = 0 then { l with probeCounter := 99 } else l }
+    ((@step Int fixScalar s99 (.client 5000 exData9)).1.links.map fun l =>
+      (l.stallGated, l.probeCounter, l.queue.length)) = [(true, 0, 1), (false, 0, 1)] ∧
+    ((@step Int fixScalar exShell (.client 5000 exData9)).1.links.map fun l =>
+      (l.stallGated, l.probeCounter, l.queue.length)) = [(true, 1, 0), (false, 0, 1)] := by
+  decide +kernel
+
+/-- Hypotheses of `C12_off_clears_sys` / `C12_off_stays_clear_run` met: after latching link 0, switch the
+guard off — the next routed datagram clears everything, and it stays clear through an uplink datagram, a
+flush, a housekeeping tick and more datagrams. -/
+example :
+    ((@after Int fixScalar (@step Int fixScalar exShell (.client 5000 exData9)).1
+        [.setCfg { stallDeselect := false }, .client 5001 exData9]).links.map fun l =>
+      (l.stallGated, l.silencePulled, l.latchedSince, l.recoverySince)) =
+      [(false, false, 0, 0), (false, false, 0, 0)] ∧
+    ((@after Int fixScalar (@withGuard Int false exShell)
+        [.client 5000 exData9, .uplink 5001 1 [0x91, 0x00, 0, 0, 0, 0, 0, 5], .flush 5020, .hk 6000,
+         .client 9000 exData9, .client 20000 exData9]).links.map fun l =>
+      (l.stallGated, l.silencePulled, l.latchedSince, l.recoverySince)) =
+      [(false, false, 0, 0), (false, false, 0, 0)] := by
+  decide +kernel
+
+example : (@withGuard Int false exShell).cfg.stallDeselect = false ∧
+    ∀ l ∈ (@withGuard Int false exShell).links, GuardClear l := by
+  refine ⟨rfl, ?_⟩
+  intro l hl
+  simp only [withGuard, exShell, List.mem_cons, List.not_mem_nil, or_false] at hl
+  rcases hl with rfl | rfl <;> exact ⟨rfl, rfl, rfl, rfl⟩
+
+end shellEvents
 
 end Srtla.Props.C12
